@@ -223,6 +223,10 @@ fn contexts(byte: u8) -> Vec<(&'static str, Vec<u8>)> {
         ("in-string", mk(&format!("{}  s := 'x", head), "y';\nEND_FUNCTION_BLOCK\n")),
         ("between-tokens", mk(&format!("{}  a :=", head), "1;\nEND_FUNCTION_BLOCK\n")),
         ("in-identifier", mk(&format!("{}  a", head), "b := 1;\nEND_FUNCTION_BLOCK\n")),
+        // the byte inside a token that is the offending token of a syntax error (messages quote that token)
+        ("in-string-where-none-is-allowed", mk(&format!("{}  a := 1 'x", head), "y';\nEND_FUNCTION_BLOCK\n")),
+        ("in-comment-where-none-is-allowed", mk(&format!("{}  a := INT(* x", head), "y *)#5;\nEND_FUNCTION_BLOCK\n")),
+        ("in-string-with-invalid-escape", mk(&format!("{}  s := 'x", head), "y$ z';\nEND_FUNCTION_BLOCK\n")),
     ]
 }
 
@@ -230,7 +234,7 @@ pub fn run(ctx: &mut Ctx) {
     // quick = the former thorough tier; thorough = a longer size sweep and all 2-byte continuations of every BOM
     let deep = ctx.tier.thorough();
     let thorough = true;
-    ctx.rule = "(1) 12 programs with non-ASCII text in comments and strings (valid and with a fault after the non-ASCII text, same line and later line) x 5 encodings through `ironplcc check` (named as a file and found through its directory) and `tokenize`; (2) every byte 0x00-0xFF x 4 contexts through the binary and in-process; (3) all 1-byte files (and all 2-byte files; thorough: all 2-byte continuations of every BOM) in-process and BOM-prefixed ones through the binary; (4) size sweep: a 2-, 3- or 4-byte character at every offset of a file growing to 4.3 k (thorough 20 k) characters and straddling every power of two from 4 KiB to 64 KiB in each encoding, in-process and a subset through the binary, the character also at the end of a never-closed comment, a never-closed string and directly after an identifier (pad 0..600); distinct = distinct file contents".into();
+    ctx.rule = "(1) 12 programs with non-ASCII text in comments and strings (valid and with a fault after the non-ASCII text, same line and later line) x 5 encodings through `ironplcc check` (named as a file and found through its directory) and `tokenize`; (2) every byte 0x00-0xFF x 7 contexts (in a comment, a string, between tokens, in an identifier, and in the offending token of a syntax error: a string or comment where none is allowed, a string with an invalid escape) through the binary and in-process; (3) all 1-byte files (and all 2-byte files; thorough: all 2-byte continuations of every BOM) in-process and BOM-prefixed ones through the binary; (4) size sweep: a 2-, 3- or 4-byte character at every offset of a file growing to 4.3 k (thorough 20 k) characters and straddling every power of two from 4 KiB to 64 KiB in each encoding, in-process and a subset through the binary, the character also at the end of a never-closed comment, a never-closed string and directly after an identifier (pad 0..600); distinct = distinct file contents".into();
     ctx.assumptions.push("all non-ASCII characters used in (1) exist in Windows-1252 and their Windows-1252 bytes are not valid UTF-8 (asserted), so the intended decoding is unambiguous".into());
     ctx.assumptions.push("positions are compared as printed by the binary (line:column of the first location block)".into());
     ctx.bounds.insert("encodings".into(), json!(ENCODINGS));
